@@ -110,31 +110,53 @@ theorem eof_statement_false_empty :
 /-! ## file lookup -/
 
 /-- a Pos inside a file's `[base, base+size]` is attributed to that file, whatever the `last`
-cache holds -/
-theorem fileset_lookup_correct (s : MSet) (hw : SetWF s) (k : Nat) (hk : k < s.files.length) (p : Int)
+cache holds — provided the cache holds one of the CURRENT files (`CacheOK`) -/
+theorem fileset_lookup_correct (s : MSet) (hw : SetWF s) (hc : CacheOK s) (k : Nat) (hk : k < s.files.length) (p : Int)
     (hin : s.files[k].base ≤ p ∧ p ≤ s.files[k].base + s.files[k].size) :
-    (fileLookup s p).1 = some k :=
-  lookup_found s hw k hk p ((inFile_iff _ _).mpr hin)
+    (fileLookup s p).1 = some s.files[k] :=
+  lookup_found s hw hc k hk p ((inFile_iff _ _).mpr hin)
 
 /-- a Pos in no file's range is attributed to no file -/
-theorem fileset_lookup_none (s : MSet) (hw : SetWF s) (p : Int)
+theorem fileset_lookup_none (s : MSet) (hw : SetWF s) (hc : CacheOK s) (p : Int)
     (hout : ∀ (k : Nat) (hk : k < s.files.length), ¬ (s.files[k].base ≤ p ∧ p ≤ s.files[k].base + s.files[k].size)) :
     (fileLookup s p).1 = none := by
-  apply lookup_none s hw p
+  apply lookup_none s hw hc p
   intro k hk
   cases h : inFile s.files[k] p with
   | false => rfl
   | true => exact absurd ((inFile_iff _ _).mp h) (hout k hk)
 
-/-- a query only touches the cache -/
-theorem position_keeps_files (s : MSet) (p : Int) :
-    (position s p).2.files = s.files ∧ (position s p).2.base = s.base := by
-  unfold position
+/-- `CacheOK` is necessary: a set whose cache still holds a File object of a previous load
+answers from that stale object (this is what a `Read` that forgets `s.last = nil` produces) -/
+def staleSet : MSet :=
+  ⟨7, [⟨"new.wa", 1, 5, 0, [0, 2, 4], []⟩], some ⟨"old.wa", 1, 5, 0, [0], []⟩⟩
+
+theorem stale_cache_answers_wrong :
+    (fileLookup staleSet 4).1 = some ⟨"old.wa", 1, 5, 0, [0], []⟩ ∧ ¬ CacheOK staleSet := by
+  constructor
+  · rfl
+  · intro h
+    have := h _ rfl
+    revert this
+    decide
+
+/-- a query only touches the cache, and leaves it holding one of the files -/
+theorem position_keeps_files (s : MSet) (p : Int) (adj : Bool) :
+    (positionFor s p adj).2.files = s.files ∧ (positionFor s p adj).2.base = s.base := by
+  unfold positionFor
   split
   · exact ⟨rfl, rfl⟩
-  · split
-    · split <;> exact ⟨rfl, rfl⟩
-    · exact ⟨rfl, rfl⟩
+  · split <;> exact ⟨rfl, rfl⟩
+
+theorem position_keeps_cache_ok (s : MSet) (hw : SetWF s) (hc : CacheOK s) (p : Int) (adj : Bool) :
+    CacheOK (positionFor s p adj).2 := by
+  unfold positionFor
+  split
+  · exact hc
+  · have hl := lookup_cache_ok s hw hc p
+    rcases hfl : fileLookup s p with ⟨a, l⟩
+    rw [hfl] at hl
+    cases a <;> exact fun f hf => hl f hf
 
 /-! ## reachable file sets are well formed -/
 
@@ -146,11 +168,19 @@ theorem fileset_inv_addFile (s s' : MSet) (name : String) (b sz cp : Int) (h : S
 theorem fileset_inv_setContent (s s' : MSet) (k : Nat) (c : List Nat) (h : SetInv s)
     (hs : setContent s k c = .ok s') : SetInv s' := setContent_inv s s' k c h hs
 
-theorem fileset_inv_wf (s : MSet) (h : SetInv s) : SetWF s := h.wf
+theorem fileset_inv_addLineInfo (s s' : MSet) (k : Nat) (li : LineInfo) (h : SetInv s)
+    (hs : addLineInfo s k li = .ok s') : SetInv s' := addLineInfo_inv s s' k li h hs
+
+theorem fileset_inv_wf (s : MSet) (h : SetInv s) : SetWF s ∧ CacheOK s := ⟨h.wf, h.cache⟩
+
+/-- **reloading re-establishes the cache invariant**: after `Read` (into a fresh or an existing
+set — `readInto` ignores the old state) the cache is empty, hence `CacheOK` -/
+theorem read_cache_invariant (old : MSet) (ss : SSet) : (readInto old ss).last = none ∧ CacheOK (readInto old ss) :=
+  ⟨rfl, read_cache_ok ss⟩
 
 /-- a concrete reachable two-file set (hypotheses of the theorems below are satisfiable) -/
 def exampleSet : MSet :=
-  ⟨13, [⟨"a.wa", 1, 5, 5, [0, 3]⟩, ⟨"b.wa", 9, 2, 3, [0]⟩], some 1⟩
+  ⟨13, [⟨"a.wa", 1, 5, 5, [0, 3], []⟩, ⟨"b.wa", 9, 2, 3, [0], []⟩], some ⟨"b.wa", 9, 2, 3, [0], []⟩⟩
 
 example : (do
     let s ← addFile newFileSet "a.wa" (-1) 5 0
@@ -159,15 +189,15 @@ example : (do
     setContent s 1 [120, 121]) = Except.ok exampleSet := by rfl
 
 theorem exampleSet_inv : SetInv exampleSet := by
-  have h1 : addFile newFileSet "a.wa" (-1) 5 0 = .ok ⟨7, [⟨"a.wa", 1, 5, 5, [0]⟩], some 0⟩ := by rfl
+  have h1 : addFile newFileSet "a.wa" (-1) 5 0 = .ok ⟨7, [⟨"a.wa", 1, 5, 5, [0], []⟩], some ⟨"a.wa", 1, 5, 5, [0], []⟩⟩ := by rfl
   have i1 := addFile_inv _ _ _ _ _ _ newFileSet_inv h1
-  have h2 : setContent ⟨7, [⟨"a.wa", 1, 5, 5, [0]⟩], some 0⟩ 0 [97, 98, 10, 99, 10]
-      = .ok ⟨7, [⟨"a.wa", 1, 5, 5, [0, 3]⟩], some 0⟩ := by rfl
+  have h2 : setContent ⟨7, [⟨"a.wa", 1, 5, 5, [0], []⟩], some ⟨"a.wa", 1, 5, 5, [0], []⟩⟩ 0 [97, 98, 10, 99, 10]
+      = .ok ⟨7, [⟨"a.wa", 1, 5, 5, [0, 3], []⟩], some ⟨"a.wa", 1, 5, 5, [0, 3], []⟩⟩ := by rfl
   have i2 := setContent_inv _ _ _ _ i1 h2
-  have h3 : addFile ⟨7, [⟨"a.wa", 1, 5, 5, [0, 3]⟩], some 0⟩ "b.wa" 9 0 3
-      = .ok ⟨13, [⟨"a.wa", 1, 5, 5, [0, 3]⟩, ⟨"b.wa", 9, 0, 3, [0]⟩], some 1⟩ := by rfl
+  have h3 : addFile ⟨7, [⟨"a.wa", 1, 5, 5, [0, 3], []⟩], some ⟨"a.wa", 1, 5, 5, [0, 3], []⟩⟩ "b.wa" 9 0 3
+      = .ok ⟨13, [⟨"a.wa", 1, 5, 5, [0, 3], []⟩, ⟨"b.wa", 9, 0, 3, [0], []⟩], some ⟨"b.wa", 9, 0, 3, [0], []⟩⟩ := by rfl
   have i3 := addFile_inv _ _ _ _ _ _ i2 h3
-  have h4 : setContent ⟨13, [⟨"a.wa", 1, 5, 5, [0, 3]⟩, ⟨"b.wa", 9, 0, 3, [0]⟩], some 1⟩ 1 [120, 121]
+  have h4 : setContent ⟨13, [⟨"a.wa", 1, 5, 5, [0, 3], []⟩, ⟨"b.wa", 9, 0, 3, [0], []⟩], some ⟨"b.wa", 9, 0, 3, [0], []⟩⟩ 1 [120, 121]
       = .ok exampleSet := by rfl
   exact setContent_inv _ _ _ _ i3 h4
 
@@ -175,13 +205,15 @@ example : SetWF exampleSet := exampleSet_inv.wf
 
 /-! ## serialisation -/
 
-/-- **reading back a written file set answers every Position query identically** (the cache and
-the reserved capacity are the only things lost) -/
-theorem read_write_id (s : MSet) (hw : SetWF s) (p : Int) :
-    (position (read (write s)) p).1 = (position s p).1 :=
-  position_congr _ _ (read_write_wf s hw) hw (read_write_files s) p
+/-- **reading back a written file set answers every Position query identically**, adjusted
+(`//line` infos applied) or not: name, base, size, line table and line-info table are all
+carried; only the cache and the reserved capacity are lost.  `old` is whatever the receiving
+FileSet object held before (reload into the same object). -/
+theorem read_write_id (old s : MSet) (hw : SetWF s) (hc : CacheOK s) (p : Int) (adj : Bool) :
+    (positionFor (readInto old (write s)) p adj).1 = (positionFor s p adj).1 :=
+  position_congr _ _ (read_write_wf s hw) hw (read_cache_ok _) hc (read_write_files s) p adj
 
-/-- the serialisable structure itself is preserved by read-then-write -/
+/-- the serialisable structure itself (including the infos) is preserved by read-then-write -/
 theorem write_read_id (ss : SSet) : write (read ss) = ss := by
   cases ss with
   | mk b fs =>
@@ -191,34 +223,45 @@ theorem write_read_id (ss : SSet) : write (read ss) = ss := by
     intro f _
     rfl
 
+/-! ## line infos -/
+
+/-- without `//line` infos, or when not adjusting, `unpack` is the raw line/column of the file -/
+theorem unpackAdj_raw (f : MFile) (offset : Int) (adj : Bool) (h : adj = false ∨ f.infos = []) :
+    unpackAdj f offset adj = (f.name, (unpack f.lines offset).1, (unpack f.lines offset).2) := by
+  unfold unpackAdj
+  rcases h with h | h
+  · simp [h]
+  · simp [h]
+
 /-! ## end to end -/
 
 /-- **Position of a Pos inside a file whose table was set from its content**: the file's name,
-the offset, and the line/column obtained by counting in the content — before and (by
-`read_write_id`) after serialisation. -/
-theorem fileset_position_correct (s : MSet) (hw : SetWF s) (k : Nat) (hk : k < s.files.length)
+the offset, and the line/column obtained by counting in the content — for `PositionFor(p,false)`
+always, for `Position` when the file has no `//line` infos; before and (by `read_write_id`)
+after serialisation. -/
+theorem fileset_position_correct (s : MSet) (hw : SetWF s) (hc : CacheOK s) (k : Nat) (hk : k < s.files.length)
     (c : List Nat) (hl : s.files[k].lines = setLinesForContent c) (hsz : s.files[k].size = c.length)
-    (off : Nat) (hoff : off < c.length) :
-    (position s (s.files[k].base + off)).1 =
+    (off : Nat) (hoff : off < c.length) (adj : Bool) (hadj : adj = false ∨ s.files[k].infos = []) :
+    (positionFor s (s.files[k].base + off) adj).1 =
       ⟨s.files[k].name, off, 1 + (((c.take off).count 10 : Nat) : Int), 1 + (off : Int) - (lastLineStart c off : Nat)⟩ := by
   have hb := hw.base_pos _ (List.getElem_mem hk)
   have hp : s.files[k].base + (off : Int) ≠ 0 := by omega
   have hin : inFile s.files[k] (s.files[k].base + off) = true := (inFile_iff _ _).mpr ⟨by omega, by omega⟩
-  rw [position_found s _ hp k hk (lookup_found s hw k hk _ hin)]
-  simp only [filePosition, hl]
+  rw [position_found s _ adj hp _ (lookup_found s hw hc k hk _ hin)]
+  simp only [filePosition, unpackAdj_raw _ _ _ hadj, hl]
   have : s.files[k].base + (off : Int) - s.files[k].base = (off : Int) := by omega
   rw [this, position_correct c off hoff]
 
-theorem fileset_position_correct_after_json (s : MSet) (hw : SetWF s) (k : Nat) (hk : k < s.files.length)
+theorem fileset_position_correct_after_json (old s : MSet) (hw : SetWF s) (hc : CacheOK s) (k : Nat) (hk : k < s.files.length)
     (c : List Nat) (hl : s.files[k].lines = setLinesForContent c) (hsz : s.files[k].size = c.length)
-    (off : Nat) (hoff : off < c.length) :
-    (position (read (write s)) (s.files[k].base + off)).1 =
+    (off : Nat) (hoff : off < c.length) (adj : Bool) (hadj : adj = false ∨ s.files[k].infos = []) :
+    (positionFor (readInto old (write s)) (s.files[k].base + off) adj).1 =
       ⟨s.files[k].name, off, 1 + (((c.take off).count 10 : Nat) : Int), 1 + (off : Int) - (lastLineStart c off : Nat)⟩ := by
-  rw [read_write_id s hw, fileset_position_correct s hw k hk c hl hsz off hoff]
+  rw [read_write_id old s hw hc, fileset_position_correct s hw hc k hk c hl hsz off hoff adj hadj]
 
 example : exampleSet.files[0].lines = setLinesForContent [97, 98, 10, 99, 10] := by decide
 example : (position exampleSet 4).1 = ⟨"a.wa", 3, 2, 1⟩ := by
-  have := fileset_position_correct exampleSet exampleSet_inv.wf 0 (by decide) [97, 98, 10, 99, 10] (by decide) (by decide) 3 (by decide)
-  simpa [exampleSet, lastLineStart] using this
+  have := fileset_position_correct exampleSet exampleSet_inv.wf exampleSet_inv.cache 0 (by decide) [97, 98, 10, 99, 10] (by decide) (by decide) 3 (by decide) true (Or.inr rfl)
+  simpa [exampleSet, lastLineStart, position] using this
 
 end WaVerif.C23
